@@ -119,6 +119,7 @@ CloneSeq(h, cs, i, n, acc) ==
 (*   [k |-> "list"|"dict"|"set", a |-> <<T>>]   List[T], Dict[str,T], Set[T]*)
 (*   [k |-> "tuple", a |-> <<T1,..,Tn>>]        Tuple[T1,..,Tn]             *)
 (*   [k |-> "cls", a |-> << >>]       a class type (class_path/init_args)   *)
+(*   [k |-> "union", a |-> <<T1,..,Tn>>]        Union[T1,..,Tn] (round 4)   *)
 (* mode: "parse" (checking / parsing), "ser" (serialize=True, dump),       *)
 (*       "inst" (instantiate_classes=True).                                *)
 (***************************************************************************)
@@ -135,7 +136,7 @@ AdaptLeaf(T, c, mode) ==
 \* set(val): equal scalars collapse
 Dedup(cs) == SelectSeq([i \in 1..Len(cs) |-> IF \E j \in 1..(i - 1) : cs[j][2] = cs[i][2] /\ cs[i][2].k = "s" THEN <<"", Bad>> ELSE cs[i]],
                        LAMBDA x : x[2] # Bad)
-RECURSIVE Adapt(_, _, _, _, _), AdaptElems(_, _, _, _, _, _)
+RECURSIVE Adapt(_, _, _, _, _), AdaptElems(_, _, _, _, _, _), AdaptUnion(_, _, _, _, _, _)
 Res(h, c, n, ok) == [h |-> h, c |-> c, n |-> n, ok |-> ok]
 \* a class-typed value ([k |-> "cls"]), _typehints.py:1060-1100 and adapt_class_type :1369-1453.  What the class parser
 \* makes of the init_args is not modelled: it is a NEW object of unknown content ("wild", matches any new object).
@@ -160,9 +161,18 @@ AdaptElems(h, id, i, Ts, mode, n) ==
            r == Adapt(h, h[id].c[i][2], T, mode, n) IN
        IF ~r.ok THEN Res(r.h, Rf(id), r.n, FALSE)
        ELSE AdaptElems(SetChild(r.h, id, i, r.c), id, i + 1, Ts, mode, r.n)
+\* round 4 - a Union other than Optional ([k |-> "union", a |-> <<T1, .., Tn>>]), _typehints.py:836-850: the members are tried in
+\* the declared order on THE SAME value object (sort_subtypes_for_union :1480-1492 only moves NoneType - and, for a text, the
+\* sequence types - to the front); the first member that accepts wins.  A member that fails has already assigned the elements
+\* it could convert into the list / dict it was given: those writes stay, and the next member sees them.
+AdaptUnion(h, c, Ts, i, mode, n) ==
+  IF i > Len(Ts) THEN Res(h, c, n, FALSE)                                                                     \* :848-849 every member failed
+  ELSE LET r == Adapt(h, c, Ts[i], mode, n) IN
+       IF r.ok THEN r ELSE AdaptUnion(r.h, c, Ts, i + 1, mode, r.n)
 Adapt(h, c, T, mode, n) ==
   IF T.k \in LeafTypes THEN LET x == AdaptLeaf(T, c, mode) IN Res(h, IF x = Bad THEN c ELSE x, n, x # Bad)
   ELSE IF T.k = "opt" THEN (IF c = None THEN Res(h, c, n, TRUE) ELSE Adapt(h, c, T.a[1], mode, n))            \* Union: NoneType, then T (:834-847)
+  ELSE IF T.k = "union" THEN AdaptUnion(h, c, T.a, 1, mode, n)
   ELSE IF T.k = "cls" THEN AdaptSpec(h, c, mode, n)
   ELSE IF c.k = "s" THEN Res(h, c, n, FALSE)
   ELSE LET t == h[c.v].t IN
@@ -364,4 +374,112 @@ Route(op) == IF op = "parse_object" THEN (IF CopyOnEntry THEN "below-tuple/argum
 Touched(hpre, halg) == {id \in DOMAIN hpre : id \notin DOMAIN halg \/ halg[id] # hpre[id]}
 \* ... and those among them that sit below a tuple (reachable from a tuple of the pre-heap)
 BelowTuple(hpre) == UNION {ReachFrom(hpre, {id}, {}) \ {id} : id \in {x \in DOMAIN hpre : hpre[x].t \in {"tuple", "set", "odict"}}}
+
+(***************************************************************************)
+(* Round 4.  PROCESS STATE as something the calls are given: the working   *)
+(* directory, the context variable current_path_dir, digests of            *)
+(* os.environ / sys.argv / sys.path, the identity of argparse.Namespace.   *)
+(*   ps = [cwd, cpd, env, argv, syspath, ns]   (all texts; cpd "" = None)  *)
+(* A directory is named relative to the root of the scratch tree.  A Path  *)
+(* object remembers the directory it was CREATED in (Path.cwd) and the     *)
+(* directory of its absolute path; the process may be somewhere else when  *)
+(* the object is handed to a call.                                         *)
+(* Ref: ProcFrame - the process state after the call is the one on entry,  *)
+(*      whether the call returns or raises.                                *)
+(* Alg: change_to_path_dir (_util.py:284-312) as enter / leave frames, a   *)
+(*      call as a program of steps, `fail` unwinds the open frames (the    *)
+(*      try/finally of :307-312).                                          *)
+(***************************************************************************)
+ProcFrame(ps1, ps2)   == ps1 = ps2
+ProcChanged(ps1, ps2) == {f \in DOMAIN ps1 : f \notin DOMAIN ps2 \/ ps1[f] # ps2[f]}
+
+CtFrame(ps)       == [cwd |-> ps.cwd, cpd |-> ps.cpd]                         \* :303 chdir = os.getcwd() (the cwd ON ENTRY, not Path.cwd), :301 token
+CtEnter(ps, dir)  == [ps EXCEPT !.cwd = dir, !.cpd = dir]                      \* :301 current_path_dir.set, :305 os.chdir(path_dir)
+CtLeave(ps, fr)   == [ps EXCEPT !.cwd = fr.cwd, !.cpd = fr.cpd]                \* :310 reset(token), :312 os.chdir(chdir)
+RECURSIVE Unwind(_, _)
+Unwind(ps, stack) == IF stack = << >> THEN ps ELSE Unwind(CtLeave(ps, stack[1]), Tail(stack))     \* innermost frame first
+\* steps: <<"enter", dir>> | <<"leave", "">> | <<"probe", "">> (user code - a type function, the body of a with - looks at
+\* the process state) | <<"fail", "">> (an exception: every open frame is left on the way out)
+RECURSIVE Exec(_, _, _, _, _)
+Exec(ps, prog, j, stack, seen) ==
+  IF j > Len(prog) THEN [ps |-> Unwind(ps, stack), ok |-> TRUE, seen |-> seen]
+  ELSE LET s == prog[j] IN
+       CASE s[1] = "enter" -> Exec(CtEnter(ps, s[2]), prog, j + 1, <<CtFrame(ps)>> \o stack, seen)
+         [] s[1] = "leave" -> Exec(CtLeave(ps, stack[1]), prog, j + 1, Tail(stack), seen)
+         [] s[1] = "probe" -> Exec(ps, prog, j + 1, stack, seen \cup {<<ps.cwd, ps.cpd>>})
+         [] OTHER          -> [ps |-> Unwind(ps, stack), ok |-> FALSE, seen |-> seen]
+St(x) == <<x, "">>
+\* the calls that are handed a path.  pc = [op, fl, entry, home]: the files live in <home>/conf (configs) and <home>/out
+\* (save); the Path object was created while the process was in <home> (parse_path, rpc, save, dcf_*), by an earlier parse
+\* of <home>/conf/x.yaml (parse_path_res: a Path_fr value of the result, created in <home>/conf), or is created by the call
+\* itself from an absolute text (cfgarg); the process is in <entry> when the call is made.
+\*   parse_path / parse_path_res  _core.py:626-645: Path(cfg_path) checks the file again (:627), then parse_string - the
+\*        conversions and the final validate - runs inside `with change_to_path_dir(fpath)` (:632)
+\*   rpc      Path.relative_path_context (_util.py:738-742) around a body that returns / raises
+\*   save     multi-file (_core.py:907 check_overwrite, :919 validate BEFORE any chdir, :963 save_paths inside
+\*            change_to_path_dir(path_fc)); save1 = multifile=False: no chdir at all (:909-911)
+\*   dcf_*    a default config file (_core.py:1041): loaded and checked inside change_to_path_dir(default_config_file);
+\*            parse_args then validates the whole configuration again outside (:384)
+\*   cfgarg   --cfg <absolute text>: ActionConfigFile.apply_config -> parse_path (_actions.py:197-207), final validate outside
+PathProg(pc) ==
+  LET d == pc.home \o "/conf"
+      o == pc.home \o "/out"
+      loaded(tail) == IF pc.fl = "ok" THEN <<<<"enter", d>>, St("probe"), St("probe"), St("leave")>> \o tail
+                      ELSE <<<<"enter", d>>, St("probe"), St("fail")>>          \* badval: the value of n is rejected; badpath: n converted, then p
+  IN CASE pc.op \in {"parse_path", "parse_path_res"} -> IF pc.fl = "missing" THEN <<St("fail")>> ELSE loaded(<< >>)
+       [] pc.op = "rpc"  -> <<<<"enter", d>>, St("probe"), St(IF pc.fl = "raises" THEN "fail" ELSE "leave")>>
+       [] pc.op = "save" -> IF pc.fl = "refuse" THEN <<St("fail")>>
+                            ELSE IF pc.fl = "invalid" THEN <<St("probe"), St("fail")>>
+                            ELSE <<St("probe"), <<"enter", o>>, St("leave")>>
+       [] pc.op = "save1" -> <<St("probe")>>
+       [] pc.op \in {"dcf_get_defaults", "dcf_format_help"} -> loaded(<< >>)
+       [] pc.op \in {"dcf_parse_args", "cfgarg"} -> loaded(<<St("probe")>>)
+       [] OTHER -> << >>
+AlgPathCall(pc, ps) == Exec(ps, PathProg(pc), 1, << >>, {})
+
+(***************************************************************************)
+(* Round 4.  FRESHNESS for class-INSTANCE signature defaults.              *)
+(* A parameter  cal: Cal = <expr>  of the __init__ that the OWNER class    *)
+(* uses.  fam = [owner, where, nis, dform, use]:                           *)
+(*   owner  "base"    the class that defines __init__(self, cal: Cal = ..) *)
+(*          "sub"     a subclass that inherits __init__ unchanged          *)
+(*          "subinit" a subclass with __init__(self, m=0, **kwargs) that   *)
+(*                    passes **kwargs to super().__init__                  *)
+(*   where  "same" | "other": the subclass is defined in the base's module *)
+(*          or in a different module that imports Base                     *)
+(*   nis    the name Cal is a global of the subclass's module              *)
+(*   dform  "kw" Cal(firstweekday=1) | "nokw" Cal() | "lazy"               *)
+(*          lazy_instance(Cal, firstweekday=1) | "pos" Cal(1) | "nonconst" *)
+(*          Cal(firstweekday=K)                                            *)
+(*   use    how the owner reaches the parser (add_class_arguments, a typed *)
+(*          argument with a lazy default, add_subclass_arguments, a        *)
+(*          class_path given for an argument typed with the base)          *)
+(* Ref: a default that IS a class_path/init_args spec - a lazy_instance by *)
+(*   construction (_typehints.py:1592-1663), a call with constant keyword  *)
+(*   arguments because the signature resolver derives the spec from the    *)
+(*   source (_parameter_resolvers.py:695-725) - yields a new object in     *)
+(*   every instantiation, never the object held by the parser's defaults.  *)
+(*   Any other default expression stays a live instance (not a spec:       *)
+(*   outside the claim).  Objects built from the owner's own spec are      *)
+(*   always new.                                                           *)
+(* Alg: the resolver looks the class name of the call up in the globals of *)
+(*   the module that DEFINES THE FUNCTION (:633 self.component.__module__),*)
+(*   where the default expression was evaluated - lookup "function".  The  *)
+(*   what-if lookup "class" (globals of the owner's module) is kept to say *)
+(*   why where / nis are enumerated: it loses the spec exactly for a       *)
+(*   subclass in another module that does not import the name.             *)
+(***************************************************************************)
+SpecForm(d)      == d \in {"kw", "nokw", "lazy"}
+MustBeFresh(fam) == SpecForm(fam.dform)
+OwnerModule(fam) == IF fam.owner = "base" \/ fam.where = "same" THEN "base" ELSE "other"
+ModGlobals(fam, m) == IF m = "base" THEN {"Cal", "Base", "K", "lazy_instance"} ELSE {"Base"} \cup (IF fam.nis THEN {"Cal"} ELSE {})
+AlgDerivesSpec(fam, lookup) ==
+  \/ fam.dform = "lazy"                                                                     \* normalize_default: lazy_get_init_data (_typehints.py:258-259)
+  \/ /\ fam.dform \in {"kw", "nokw"}                                                         \* :712-719 keywords with constants only, no positionals (:721)
+     /\ "Cal" \in ModGlobals(fam, IF lookup = "function" THEN "base" ELSE OwnerModule(fam))   \* :727-731 get_call_class_type
+\* observed identities: own = objects built for the owner's spec, cal = objects found in their parameter, per instantiation
+\* (first and second instantiation of the configuration of parse 1, instantiation of the configuration of parse 2);
+\* old = instances that existed before (in the declared defaults, in the two configurations)
+AllDistinct(a, b, c, old) == Fresh(a, b, old) /\ Fresh(a, c, old) /\ Fresh(b, c, old)
+AllTheLive(a, b, c, old)  == a = b /\ b = c /\ Cardinality(a) = 1 /\ a \subseteq old
 =============================================================================
